@@ -4,14 +4,14 @@ CONSTANTS
   Mode = "families"
   Width = 2
   Foreigns = FALSE
-  Wraps = TRUE
+  Wraps = FALSE
   WrapMax = 1
+  ForeignVals <- ForeignValsQuick
+  ForeignBase <- ForeignBaseQuick
   WithAcc = FALSE
   ExportMode = "errors"
 INVARIANT C05Static
 INVARIANT EmptyAccepts
 INVARIANT NoSurprises
 INVARIANT ExportInv
-PROPERTY C05Step
-PROPERTY C10Step
 CHECK_DEADLOCK FALSE
